@@ -1,7 +1,7 @@
 """Sidecar contracts: which real function is checked against which specification."""
 from pyvc.verify import Contract, Cut, Lemma, STR, INT, BOOL, OPT, URLT, UNION, CONST, BYTES
 
-from . import hooks, spec_parse, spec_path, spec_url
+from . import hooks, spec_parse, spec_path, spec_query, spec_url
 
 CONTRACTS = {}
 
@@ -152,6 +152,7 @@ for _name, _kw in _quoter_configs().items():
         _inst = _qpy._Quoter(**_kw)
         PY_QUOTERS[_name] = _inst
         spec_quote.INSTANCE_NAME[id(_inst)] = _name
+        spec_quote.INSTANCE_OBJ[id(_inst)] = _inst
 
 
 def _quoter_stream_result(ex, st, stream):
@@ -205,6 +206,7 @@ try:
             _inst = _PYX_MOD._Quoter(**_kw)
             C_QUOTERS[_name] = _inst
             spec_quote.INSTANCE_NAME[id(_inst)] = _name
+            spec_quote.INSTANCE_OBJ[id(_inst)] = _inst
     PYX_ERROR = None
 except Exception as _e:      # the front end could not read the current .pyx: obligations undecided
     PYX_ERROR = f"{type(_e).__name__}: {_e}"
@@ -271,3 +273,44 @@ add(Contract("yarl._path:normalize_path_segments", [("segments", "seglist")], sp
                                 "(not segs_no_dots_upto(segments, __k) or segs_prefix_equal(resolved_path, segments, __k))"),
                         "step_post": "segs_step(OLD_resolved_path, seg, resolved_path)"}},
              props=("C15", "C14", "C19")))
+
+add(Lemma(spec_quote.lemma_output_is_canonical,
+          [("quoter", _ALLQ), ("B", BYTES), ("p", INT), ("C", BYTES), ("q", INT)],
+          requires=spec_quote.lemma_out_requires, props=("C03",),
+          note="units written by any quoter are canonical units for the component's re-quoter (with lemma_canonical_is_fixed: quoting is idempotent)"))
+
+add(Lemma(spec_parse.lemma_split_unsplit,
+          [("scheme", STR), ("netloc", STR), ("path", STR), ("query", STR), ("fragment", STR)],
+          requires=spec_parse.parts_wellformed, props=("WIP3",),
+          transparent=("yarl._parse:split_url", "yarl._parse:unsplit_result"),
+          note="split_url(unsplit_result(parts)) == parts for well-formed parts"))
+
+# ---------------------------------------------------------------- query operations (C12)
+import collections as _collections
+
+
+class _MyInt(int):
+    pass
+
+
+class _MyFloat(float):
+    pass
+
+
+class _MyStr(str):
+    pass
+
+
+_QV = CONST(0, 7, -3, 10 ** 30, True, False, None, 1.5, -0.0, 1e300, float("nan"), float("inf"), float("-inf"),
+            b"x", bytearray(b"x"), (1,), [1], {"a": 1}, _MyInt(5), _MyFloat(2.5), _MyFloat("nan"), _MyFloat("-inf"),
+            object(), 1 + 2j)
+add(Contract("yarl._query:query_var", [("v", UNION(STR, _QV))], spec=spec_query.query_var,
+             raises=(TypeError, ValueError), props=("C12", "C19"),
+             note="type gate over the finite type lattice (every representative enumerated) and all strings"))
+
+_QARG = UNION(OPT(STR), CONST(b"x", 5, bytearray(b"y")))
+add(Contract("yarl._url:URL.with_query", [("self", URLT), ("args", ("varargs", _QARG))], spec=spec_query.with_query_args,
+             raises=(TypeError, ValueError), props=("C12", "C11", "C19"),
+             note="None and str arguments (mapping / sequence forms go through external multidict and are not under contract)"))
+add(Contract("yarl._url:URL.extend_query", [("self", URLT), ("args", ("varargs", _QARG))], spec=spec_query.extend_query_args,
+             raises=(TypeError, ValueError), props=("C12", "C11", "C19", "C02")))
